@@ -190,10 +190,15 @@ def decompressLwe (b nl : Nat) (body : List Int) (seedStream : List Nat) : Optio
   (Sampling.vecFillUniform b (nl + 1) body.length seedStream).map
     (fun r => List.zipWith (fun l x => x :: l.drop 1) r.1 body)
 
-/-- **`decompress_lwe` as it is** (layouts/compressed/lwe.rs:124): `assert_eq!(res.lwe_layout(), other.lwe_layout())` compares the
-receiver's LWE dimension `nl` with `LWECompressed::n()`, which reports the ring degree of the body buffer — always 1
-(`VecZnx::alloc(1, 1, size)`) — so the call panics for every LWE dimension other than 1. -/
-def decompressLweRust (b nl : Nat) (body : List Int) (seedStream : List Nat) : Option Col :=
+/-- **`decompress_lwe` as it is** (layouts/compressed/lwe.rs:124, after repair e6c90e8): the receiver (radix `resB`, `resSize` limbs,
+LWE dimension `nl`) must have the compressed object's radix and number of limbs — `assert_eq!(res.base2k(), other.base2k());
+assert_eq!(res.size(), other.size())`, a panic otherwise; the LWE dimension is the receiver's (the compressed object does not record it). -/
+def decompressLweRust (resB resSize b nl : Nat) (body : List Int) (seedStream : List Nat) : Option Col :=
+  if resB ≠ b ∨ resSize ≠ body.length then none else decompressLwe b nl body seedStream
+
+/-- the assertion before the repair: `assert_eq!(res.lwe_layout(), other.lwe_layout())`, where `LWECompressed::n()` is the ring degree of the
+body buffer (always 1): every LWE dimension other than 1 was refused.  Kept as documentation of the repaired finding only. -/
+def decompressLweOldAssert (b nl : Nat) (body : List Int) (seedStream : List Nat) : Option Col :=
   if nl ≠ 1 then none else decompressLwe b nl body seedStream
 
 /-- compressing a standard LWE ciphertext: keep coefficient 0 of every limb (and the mask seed) -/
